@@ -31,11 +31,11 @@ CHECKS.update({
         GRAMMAR_NOTE, "DESIGN.md section 3 C08"),
     "C10": (
         "explicit enumeration of the bisection state machine's inputs (function family x root position x interval x tol x max_iter x dtype) on the real inverter, plus a traced leg under jax.disable_jit recording every evaluation point",
-        "All ~100k combinations of 8 increasing function shapes, 3 slopes, 13 root positions (inside, on either end, one ulp outside, 3/pi widths and 1e6 away on both sides, exact-midpoint and dyadic), 4 initial intervals, 8 tolerances, 5 max_iter values and 2 dtypes are solved by the real AutoregressiveBisectionInverter and judged against the outcome-level error bound; 1200 searches run un-jitted with the while_loops as Python loops and an evaluation horizon; triangular maps of dimension 1-6 with coupling and real BlockAutoregressiveNetworks are inverted end to end with the propagated bound; two function kinds have values so small / large that products of two of them under / overflow.",
+        "All ~100k combinations of 8 increasing function shapes, 3 slopes, 13 root positions (inside, on either end, one ulp outside, 3/pi widths and 1e6 away on both sides, exact-midpoint and dyadic), 4 initial intervals, 8 tolerances, 5 max_iter values and 2 dtypes are solved by the real AutoregressiveBisectionInverter and judged against the outcome-level error bound; 1200 searches run un-jitted with the while_loops as Python loops and an evaluation horizon; triangular maps of dimension 1-6 with coupling and real BlockAutoregressiveNetworks are inverted end to end with the propagated bound; two function kinds have values so small / large that products of two of them under / overflow; max_iter is also left at its default.",
         "Function family and bounds as listed in evidence; error bound assumes a doubling expansion (factor-2 slack).", "DESIGN.md section 3 C10"),
     "C15": (
         "exhaustive enumeration of (n, batch_size, val_prop, condition, epochs) with the complete call history of the real fit_to_data observed through the user-supplied loss and optimiser",
-        "Every dataset size n (quick 2..20, thorough 2..60), every batch_size 1..n+5, 7 validation proportions, with/without condition, 1-4 epochs is run through the real fit_to_data on index-tagged rows; the recorded history of every loss call (rows, condition rows, key, train/validation, update marks) is judged: partition, pairing, no duplicates, only a trailing remainder dropped, no validation row in a gradient step, fresh keys, reproducibility.",
+        "Every dataset size n (quick 2..20, thorough 2..60), every batch_size 1..n+5, 7 validation proportions, with/without condition, 1-4 epochs is run through the real fit_to_data on index-tagged rows; the recorded history of every loss call (rows, condition rows, key, train/validation, update marks) is judged: partition, pairing, no duplicates, only a trailing remainder dropped, no validation row in a gradient step, fresh keys, reproducibility; integer-typed datasets (ids above 2**24) must reach the loss with their dtype and exact pairing.",
         "Split sizes read from train_val_split and only required to be sane; a traced loss call is a training step.", "DESIGN.md section 3 C15"),
 })
 
@@ -47,31 +47,31 @@ CHECKS.update({
             "Every factory configuration (x invert x conditional x conditions) and 15 hand-built 1-D transformed distributions are integrated by trapezoid quadrature on a tail-covering sinh-spaced grid at two resolutions (mass = 1) and a fixed-key batch of 2e5 samples is compared with the quadrature's cdf / cell masses (Kolmogorov / chi-square, a-priori false alarm < 1e-9).",
             "Bounds discrepancy by quadrature resolution and the power of 2e5 draws; unresolved states are reported as skipped, never passed.", "DESIGN.md section 3 C04"),
     "C05": ("exhaustive enumeration of family x parameter-shape pairing x value grid x evaluation points against scipy.stats",
-            "All 10 families, MultivariateNormal, StandardNormal and mixtures over every broadcast pairing of parameter shapes, a value grid (loc, scale, df, rate) and evaluation points inside, on the edge of and outside the support are compared with scipy.stats log-densities; accessors must reproduce constructor arguments; fixed-key samplers are compared with the scipy cdf (DKW bound, alpha 1e-9); mixtures must equal the weight-normalised sum and be invariant to rescaling, also after every trainable leaf has been moved (the implied component weights, recovered from the density by least squares, must be positive and sum to one).",
+            "All 10 families, MultivariateNormal, StandardNormal and mixtures over every broadcast pairing of parameter shapes, a value grid (loc, scale, df, rate) and evaluation points inside, on the edge of and outside the support are compared with scipy.stats log-densities; accessors must reproduce constructor arguments; fixed-key samplers are compared with the scipy cdf (DKW bound, alpha 1e-9); mixtures must equal the weight-normalised sum and be invariant to rescaling, also after every trainable leaf has been moved (the implied component weights, recovered from the density by least squares, must be positive and sum to one); every family is also compared at trained states with the textbook density of its accessor-reported parameters, at points whose coordinates lie on different sides of the support, and with scales / rates down to 1e-6 through the accessors in both dtypes.",
             "scipy.stats float64 is the textbook reference; edge-of-support density convention not judged.", "DESIGN.md section 3 C05"),
     "C06": ("exhaustive enumeration of event shape x condition shape x all broadcasting batch-shape pairs x sample shapes, each element compared with the unbatched call",
             "For event and condition shapes of rank 0-2 (incl. scalar/scalar), every pair of leading batch shapes that broadcasts and every sample_shape, batched log_prob / sample / sample_and_log_prob are compared element by element with unbatched calls on the NumPy-broadcast slices, using distributions that depend injectively on every entry of x and the condition; samples must use independent randomness and pair with their own log-prob.",
             "Axis sizes >= 1.", "DESIGN.md section 3 C06"),
     "C07": ("exhaustive enumeration of leaf constructor arguments x parameter levels x boundary-directed inputs against independent NumPy formulas",
-            "Each elementary bijection (all broadcast pairings, both triangles, every permutation of every shape with <= 4 elements (thorough: all of S_6), spline knots/interval/min_derivative grid, planar dims/activations) is compared value by value with float64 NumPy formulas written from the documentation and the cited papers, including knots, interval ends and a 2001-point lattice.",
+            "Each elementary bijection (all broadcast pairings, both triangles, every permutation of every shape with <= 4 elements (thorough: all of S_6), spline knots/interval/min_derivative grid, planar dims/activations) is compared value by value with float64 NumPy formulas written from the documentation and the cited papers, including knots, interval ends and a 2001-point lattice; planar slopes up to 3, constructor scales 1e-6...1e6 in both dtypes, and a TriangularAffine whose ignored triangle holds NaN / inf are included.",
             "Parameters read through documented attributes after unwrap.", "DESIGN.md section 3 C07"),
     "C09": ("complete enumeration of the architecture grid x weight assignments written into the raw trainable arrays; exact-zero / strict-sign inspection of autodiff Jacobians",
             "Every (dim, cond_dim, width, depth, parameters-per-dimension / block size) of the grid for MaskedAutoregressive, Coupling and BlockAutoregressiveNetwork is built and its Jacobian w.r.t. x and the condition inspected under the initial, all-positive, mixed-sign (1 and 50) and dense raw-weight assignments: forbidden dependencies must be exact zeros, permitted ones non-zero when width >= dim; mask helpers are compared with patterns written from their docstrings for all small sizes; MaskedAutoregressive connectivity is checked for every width dim..2dim+1 up to dim 6 and widths {dim, dim+1, 50} up to dim 20.",
             "Exact-zero tests rely on masked weights being exact zeros.", "DESIGN.md section 3 C09"),
     "C11": ("full product grid V^k of raw parameter values evaluated through unwrap (vmap), constructor round trips, invalid-argument probes",
-            "Every raw leaf behind a constraint (scale, triangular diagonal, df, mixture weights, spline widths/heights/derivatives, planar (w,u,b), weight-norm scale and weights, min-scale transformer, BNAF block weights) is set to every combination of {-50,-5,-0.5,0,0.5,5,50} (also on top of a perturbed state, both dtypes) and the constrained value inspected; constructor arguments from 1e-6 to 1e6 must round-trip; arguments outside the constraint must be rejected.",
+            "Every raw leaf behind a constraint (scale, triangular diagonal, df, mixture weights, spline widths/heights/derivatives, planar (w,u,b), weight-norm scale and weights, min-scale transformer, BNAF block weights) is set to every combination of {-50,-5,-0.5,0,0.5,5,50} (also on top of a perturbed state, both dtypes) and the constrained value inspected; constructor arguments from 1e-6 to 1e6 must round-trip; arguments outside the constraint must be rejected; for the flows' min-scale transformer every array the conditioner parameterises is swept.",
             "Raw box |raw| <= 50; two recorded known findings (known_findings.json).", "DESIGN.md section 3 C11"),
     "C12": ("exhaustive enumeration of wrapper nestings (depth 3, 0-2 vmap levels, containers), of frozen subsets of every model, and of (model, frozen subset, loop, optimiser, steps) training histories",
             "All 156 nestings of the five wrapper kinds are unwrapped inside four container kinds and under 1-2 levels of filter_vmap and compared with a leaf-by-leaf NumPy reference (incl. a deliberately non-broadcast-safe Lambda); for 9 models every subset (<= 6 leaves) or single/complement subsets are frozen and gradients inspected (exact zeros on frozen leaves); both training loops are run with sgd/adam/adamw/a hostile +1 optimiser and frozen and non-floating leaves must be bit-identical afterwards; whole sub-trees frozen with NonTrainable (eager, filter_jit, both loops), the frozen child of every combinator kind, floating NumPy leaves under non_trainable, and every depth-1 combinator constructor handed children with frozen leaves (markers must survive construction) are included.",
             "Hostile optimiser only sees what the loops hand it.", "DESIGN.md section 3 C12"),
     "C13": ("exhaustive probing over a 40-shape lattice of malformed x / condition shapes for every expression and class, plus every ill-shaped constructor application",
-            "Every enumerated expression and (by reflection) every concrete bijection class is called on all four methods with each of the 40 lattice shapes different from the declared one for x and for the condition (and a missing condition): every call must raise; well-formed calls must return exactly the declared shape and a () log-det; distributions must reject mismatching trailing dimensions; ~15k ill-shaped constructor applications must be rejected (incl. the full lattice of boolean masks that do not match the leading dimensions and integer indices out of range); malformed inputs are also presented as int32 / bool / float16 / NumPy arrays and bare Python ints.",
+            "Every enumerated expression and (by reflection) every concrete bijection class is called on all four methods with each of the 40 lattice shapes different from the declared one for x and for the condition (and a missing condition): every call must raise; well-formed calls must return exactly the declared shape and a () log-det; distributions must reject mismatching trailing dimensions; ~15k ill-shaped constructor applications must be rejected (incl. the full lattice of boolean masks that do not match the leading dimensions and integer indices out of range); malformed inputs are also presented as int32 / bool / float16 / NumPy arrays and bare Python ints; every conditional expression is also called from inside an EmbedCondition whose network returns each wrong lattice shape.",
             "Any exception counts as rejection.", "DESIGN.md section 3 C13"),
     "C14": ("exhaustive enumeration of models x methods x program transformations (filter_jit, re-used jit, vmap, repeat, flatten/unflatten, serialise round trip)",
             "Every leaf class and every (combinator, option) pair, all named distributions and factory flows: each method is run eagerly, under eqx.filter_jit of the bound method, through one jitted function re-used with different parameter values, under jax.vmap (over x and over (x, condition)) vs a Python loop, twice, after flatten/unflatten and after tree_serialise_leaves into a freshly built model with different constructor arguments and parameters; the last three must be bit-identical.",
             "jit/vmap vs eager to 1e-8 relative.", "DESIGN.md section 3 C14"),
     "C17": ("exhaustive enumeration of batch sizes, n_contrastive, num_samples, keys and models with gradient read-out of the rows used",
-            "MaximumLikelihoodLoss and ElboLoss values are compared with their defining formulas over public log_prob / sample_and_log_prob for every batch size 2-7, num_samples {1,3,16} and 3 keys; the stick-the-landing gradient must equal the path derivative computed with two model copies (and differ from the total derivative); ContrastiveLoss is driven with a look-up-table distribution whose gradient at zero reads out exactly which rows were used, for every n_contrastive in 1..batch-1; the likelihood loss is also evaluated on batches of 255...4097 rows.",
+            "MaximumLikelihoodLoss and ElboLoss values are compared with their defining formulas over public log_prob / sample_and_log_prob for every batch size 2-7, num_samples {1,3,16} and 3 keys; the stick-the-landing gradient must equal the path derivative computed with two model copies (and differ from the total derivative); ContrastiveLoss is driven with a look-up-table distribution whose gradient at zero reads out exactly which rows were used, for every n_contrastive in 1..batch-1; the likelihood loss is also evaluated on batches of 255...4097 rows, and one ContrastiveLoss object is called on batches of decreasing and increasing size.",
             "Look-up-table distribution is a user-defined AbstractDistribution.", "DESIGN.md section 3 C17"),
     "C18": ("exhaustive grammar exploration of Transformed(base, expression) with log_prob, d/dx and d/dparams evaluated on the boundary-directed alphabet",
             "For every leaf in both orientations, compositions up to the depth bound and every factory, at parameter levels init and perturbed and in float64/float32, log_prob and its gradients w.r.t. the input and every trainable parameter are evaluated at every constant the formulas compare against, both float neighbours and magnitudes to 1e4: log_prob must never be NaN and all gradients finite wherever it is finite; the ten named families alone and as two-component mixtures (component separations 1...1e4, ordinary and extreme weight ratios) are included.",
